@@ -71,6 +71,15 @@ def _normalize_raw_title_quotes(raw_title: str) -> str:
     return _normalize_title_quotes(raw_title)
 
 
+def _without_trailing_spaces(text: str) -> str:
+    """
+    Drop spaces at the ends of the inner lines of an inline construct that spans several
+    lines (an HTML tag or comment, a title). Left in place they would be taken for a
+    Markdown hard break when the paragraph is wrapped.
+    """
+    return re.sub(r"[ \t]+\n", "\n", text)
+
+
 def _render_destination(dest: str) -> str:
     """
     A link destination as it can be written between the parentheses of a link: one that
@@ -618,7 +627,7 @@ class MarkdownNormalizer(Renderer):
         return f"**{self.render_children(element)}**"
 
     def render_inline_html(self, element: inline.InlineHTML) -> str:
-        return cast(str, element.children)
+        return _without_trailing_spaces(cast(str, element.children))
 
     def render_link(self, element: inline.Link) -> str:
         link_text = self.render_children(element)
@@ -637,7 +646,7 @@ class MarkdownNormalizer(Renderer):
             if label == link_text:
                 return f"[{label}]"
             return f"[{link_text}][{label}]"
-        title = f" {link_title}" if link_title is not None else ""
+        title = f" {_without_trailing_spaces(link_title)}" if link_title is not None else ""
         dest = _render_destination(element.dest)
         return f"[{link_text}]({dest}{title})"
 
@@ -656,7 +665,11 @@ class MarkdownNormalizer(Renderer):
 
     def render_image(self, element: inline.Image) -> str:
         template = "![{}]({}{})"
-        title = f" {_normalize_title_quotes(element.title)}" if element.title else ""
+        title = (
+            f" {_without_trailing_spaces(_normalize_title_quotes(element.title))}"
+            if element.title
+            else ""
+        )
         dest = _render_destination(element.dest)
         return template.format(self.render_children(element), dest, title)
 
